@@ -67,7 +67,7 @@ def op_lattice(tier):
                         p["block"] = None
                         L.append(p)
         for dt in ("i8", "i16", "i32"):
-            for sub, scalar, bshape in (("ADD", None, None), ("MUL", 2.0, None), ("ABS", None, None), ("SUB", None, (1, 1, oc)), ("MIN", None, None)):
+            for sub, scalar, bshape in (("ADD", None, None), ("MUL", 2.0, None), ("ABS", None, None), ("SUB", None, (1, 1, oc)), ("MIN", None, None), ("ADD", 0.0, None), ("MAX", 0.0, None), ("MUL", -1.0, None)):
                 if dt == "i32" and sub in ("ABS",):
                     continue
                 for act in (None, oplists.LUT_ACT):
